@@ -453,6 +453,40 @@ def zipReplace (it : Iter) (d1 d2 : Deque) (x y : Nat) (m : Mem) :
   let r2 := d2.replaceAt y (decIdx it.index) r1.2.2.2
   (.ok, some (r1.2.1.getD 0, r2.2.1.getD 0), r1.2.2.1, r2.2.2.1, r2.2.2.2)
 
+/-! ## zip iterator over one and the same deque (`d1 == d2` in the C call)
+
+The C functions then read and write the *same* object through both pointers; the model threads the one
+state through both halves in the order of the C statements. -/
+
+/-- `cc_deque_zip_iter_remove(iter, …)` with `iter->d1 == iter->d2`: the second `remove_at` acts on the
+deque the first one has already changed (it removes the successor, or fails silently — the status is
+ignored and `*out2` is then not written) -/
+def zipRemoveSelf (it : Iter) (d : Deque) (m : Mem) : Stat × Option Nat × Option Nat × Iter × Deque × Mem :=
+  if it.lastRemoved then (.errValueNotFound, none, none, it, d, m) else
+  if decIdx it.index ≥ d.size ∨ decIdx it.index ≥ d.size then (.errOutOfRange, none, none, it, d, m) else
+  let r1 := d.removeAt (decIdx it.index) m
+  let r2 := r1.2.2.1.removeAt (decIdx it.index) r1.2.2.2
+  (.ok, r1.2.1, r2.2.1, { index := it.index - 1, lastRemoved := true }, r2.2.2.1, r2.2.2.2)
+
+/-- `cc_deque_zip_iter_add` with `d1 == d2`: both growth tests look at the one deque, then two `add_at`
+calls at the same index follow; the status of the second (which may have to grow again) is ignored -/
+def zipAddSelf (it : Iter) (d : Deque) (x y : Nat) (m : Mem) : Stat × Iter × Deque × Mem :=
+  if it.index ≥ d.size ∨ it.index ≥ d.size then (.errOutOfRange, it, d, m) else
+  let e1 := if d.cap = d.size then d.expandCapacity m else (.ok, d, m)
+  if e1.1 != .ok then (.errAlloc, it, e1.2.1, e1.2.2) else
+  let e2 := if e1.2.1.cap = e1.2.1.size then e1.2.1.expandCapacity e1.2.2 else (.ok, e1.2.1, e1.2.2)
+  if e2.1 != .ok then (.errAlloc, it, e2.2.1, e2.2.2) else
+  let a1 := e2.2.1.addAt x it.index e2.2.2
+  let a2 := a1.2.1.addAt y it.index a1.2.2
+  (.ok, { it with index := it.index + 1 }, a2.2.1, a2.2.2)
+
+/-- `cc_deque_zip_iter_replace` with `d1 == d2`: the second replacement overwrites the first -/
+def zipReplaceSelf (it : Iter) (d : Deque) (x y : Nat) (m : Mem) : Stat × Option Nat × Option Nat × Deque × Mem :=
+  if decIdx it.index ≥ d.size ∨ decIdx it.index ≥ d.size then (.errOutOfRange, none, none, d, m) else
+  let r1 := d.replaceAt x (decIdx it.index) m
+  let r2 := r1.2.2.1.replaceAt y (decIdx it.index) r1.2.2.2
+  (.ok, r1.2.1, r2.2.1, r2.2.2.1, r2.2.2.2)
+
 /-! ## abstraction and invariant -/
 
 /-- the held elements, front first -/
